@@ -143,6 +143,10 @@ def suffix_rule(ctx):
 
 
 def algo_rule(ctx):
+    """the resolver cuts at `/` only, drops `.`, pops on `..`, keeps every other segment (empty ones included), drops the referring
+    file's own name once, and discards the base for absolute paths.  Read through private helpers and guards, so that
+    extracting the segment walk or spelling the absolute test differently does not matter."""
+    import guards as gd
     ob = ctx.ob
     tc = ctx.tc
     obs = []
@@ -152,9 +156,9 @@ def algo_rule(ctx):
             obs.append(ob("C13.algo/%s" % name, False, "path.rs", "%s not found" % name))
             continue
         f = fs[0]
-        ms = [n for n in sir.walk(f.body) if n.get("k") == "match" and any(a["pat"].get("k") == "p_lit" for a in n["arms"])]
-        want_n = 2 if name == "resolve" else 1
-        okall = len(ms) == want_n
+        nodes = list(sir.walk_reach(tc, f, 2))
+        ms = [n for n in nodes if n.get("k") == "match" and any(a["pat"].get("k") == "p_lit" for a in n["arms"])]
+        okall = len(ms) >= 1
         details = []
         for m in ms:
             t = {}
@@ -167,25 +171,41 @@ def algo_rule(ctx):
             details.append(t)
             if t != {".": [], "..": ["pop"], "_": ["push"]}:
                 okall = False
-        splits = [n for n in sir.walk(f.body) if n.get("k") == "mcall" and n["m"] in ("split", "split_terminator", "rsplit", "split_inclusive", "splitn")]
+        splits = [n for n in nodes if n.get("k") == "mcall" and n["m"] in ("split", "split_terminator", "rsplit", "split_inclusive", "splitn")]
         oksep = bool(splits) and all(n["m"] == "split" and len(n["args"]) == 1 and n["args"][0].get("k") == "lit" and n["args"][0].get("v") == "/" for n in splits)
         obs.append(ob("C13.algo/%s/separator" % name, oksep, ctx.where(f), "paths are cut at `/` and only there (%d split calls): %s" % (len(splits), oksep),
                       witness=None if oksep else 'a backslash in a src is rewritten to `/`: the link no longer names the file that was registered'))
         obs.append(ob("C13.algo/%s/segments" % name, okall, ctx.where(f), "segment handling %s (expected `.` dropped, `..` pops, anything else - including empty segments - pushed)" % details,
                       witness=None if okall else 'src="d//t" links `p/d/t` instead of the registered `p/d//t`'))
         if name == "resolve":
-            nodes = list(sir.walk(f.body))
-            sw = [n for n in nodes if n.get("k") == "if" and "starts_with('/')" in sir.expr_str(n["cond"]).replace(" ", "")]
-            ok = len(sw) == 1 and "rel[1..]" in sir.expr_str(sw[0]["then"]["stmts"][-1]["e"]).replace(" ", "") if sw else False
-            base_loop_in_else = bool(sw) and sw[0].get("else") is not None and any(x.get("k") == "for" and "base.split('/')" in sir.expr_str(x["e"]).replace(" ", "") for x in sir.walk(sw[0]["else"]))
-            obs.append(ob("C13.algo/resolve/absolute", bool(ok and base_loop_in_else), ctx.where(f), "a leading `/` discards the base (base segments are walked only in the relative branch) and is itself dropped: %s" % bool(ok and base_loop_in_else)))
-            # pop of the base's file name: a top-level `slices.pop();` statement between the two loops
+            G = gd.guards_of(f.body)
+
+            def absolute_state(gs):
+                """True = rel is known to start with '/', False = known not to, None = unknown"""
+                st = None
+                for kind, subj, pol in gs:
+                    if kind == "cond" and subj.get("k") == "mcall" and subj["m"] == "starts_with" and "rel" in sir.expr_str(subj["recv"]) and subj["args"] and subj["args"][0].get("v") == "/":
+                        st = pol
+                    if kind == "pat" and "strip_prefix" in sir.expr_str(subj[0]) and "rel" in sir.expr_str(subj[0]):
+                        if subj[1].startswith("Some"):
+                            st = pol
+                        elif subj[1].startswith("None"):
+                            st = not pol
+                return st
+            # every use of the base path happens only when the target is relative
+            base_uses = [n for n in sir.walk(f.body) if n.get("k") == "path" and n.get("s") == "base"]
+            ok_base = bool(base_uses) and all(absolute_state(G.get(id(n), [])) is False for n in base_uses)
+            # the absolute form drops exactly the leading `/`
+            drops = any(n.get("k") == "index" and sir.expr_str(n).replace(" ", "") == "rel[1..]" and absolute_state(G.get(id(n), [])) is True for n in sir.walk(f.body)) \
+                or any(n.get("k") == "mcall" and n["m"] == "strip_prefix" and n["args"] and n["args"][0].get("v") == "/" and "rel" in sir.expr_str(n["recv"]) for n in sir.walk(f.body))
+            obs.append(ob("C13.algo/resolve/absolute", bool(ok_base and drops), ctx.where(f), "a leading `/` discards the base (the base is only walked when the target is relative: %s) and is itself dropped: %s" % (ok_base, drops)))
+            # pop of the base's file name: one unconditional top-level `slices.pop();` before the target segments are applied
             top = f.body["stmts"]
             pops = [i for i, st in enumerate(top) if st.get("k") == "expr" and sir.expr_str(st["e"]) == "slices.pop()"]
-            loops = [i for i, st in enumerate(top) if st.get("k") == "expr" and st["e"].get("k") == "for"]
-            ok = len(pops) == 1 and loops and pops[0] < loops[-1]
+            later = [i for i, st in enumerate(top) if st.get("k") == "expr" and i > (pops[0] if pops else -1) and (st["e"].get("k") == "for" or (st["e"].get("k") == "call" and any(sir.expr_str(sir.strip_ref(a)) == "main" for a in st["e"]["args"])))]
+            ok = len(pops) == 1 and bool(later)
             obs.append(ob("C13.algo/resolve/dirname", bool(ok), ctx.where(f), "the referring file's own name is dropped once before the target segments are applied: %s" % bool(ok)))
-            j = [n for n in nodes if n.get("k") == "mcall" and n["m"] == "join" and n["args"] and n["args"][0].get("v") == "/"]
+            j = [n for n in sir.walk(f.body) if n.get("k") == "mcall" and n["m"] == "join" and n["args"] and n["args"][0].get("v") == "/"]
             obs.append(ob("C13.algo/resolve/join", len(j) == 1, ctx.where(f), "segments are joined with `/`: %s" % (len(j) == 1)))
     return obs
 
